@@ -162,7 +162,7 @@ func c14Unit(sc c14Scenario, bound int) vh.Unit {
 	return vh.Unit{Name: name, Run: func(u *vh.U) {
 		vh.RunDFS(u, vh.DFSSpec{
 			Name: name, Bound: bound,
-			Run:           vsched.Options{YieldFiles: []string{"remote.go", "client.go", "pending.go", "server.go"}, Drain: true, Delay: true, MaxTime: 3600e9, AutoTick: 1},
+			Run:           vsched.Options{YieldFiles: []string{"remote.go", "client.go", "pending.go", "server.go", "method.go"}, Drain: true, Delay: true, MaxTime: 3600e9, AutoTick: 1},
 			Body:          body,
 			AllowDeadlock: true, // judged below with a precise message
 			Check: func(s *vsched.Sched) (string, string) {
